@@ -116,7 +116,7 @@ static void ep_curve_set_map(void) {
 					fp_mul(c1, c1, ctx->ep_b);
 					fp_sqr(c0, c1);
 					fp_add(c0, c0, ctx->ep_a);
-					fp_mul(c0, c0, ctx->ep_map_u);
+					fp_mul(c0, c0, c1);
 					fp_add(c0, c0, ctx->ep_b);
 				} while (fp_is_sqr(ctx->ep_map_u) || !fp_is_sqr(c0));
 #ifdef EP_CTMAP
